@@ -48,7 +48,7 @@ func render(c code, sb *strings.Builder, ind int) {
 		if x.monadic {
 			kw = "let*"
 		}
-		fmt.Fprintf(sb, "%s%s %s := %s in\n", pad, kw, x.pat, x.rhs)
+		fmt.Fprintf(sb, "%s%s %s := %s in\n", pad, kw, letPat(x), x.rhs)
 		render(x.body, sb, ind)
 	case cIf:
 		fmt.Fprintf(sb, "%sif %s then\n", pad, x.cond)
@@ -64,6 +64,14 @@ func render(c code, sb *strings.Builder, ind int) {
 	}
 }
 
+// letPat: a tuple pattern is written '(a, b) after let and (a, b) after let* (whose binder is a pattern)
+func letPat(x cLet) string {
+	if x.monadic {
+		return strings.TrimPrefix(x.pat, "'")
+	}
+	return x.pat
+}
+
 func flat(c code) string {
 	switch x := c.(type) {
 	case cLeaf:
@@ -73,7 +81,7 @@ func flat(c code) string {
 		if x.monadic {
 			kw = "let*"
 		}
-		return fmt.Sprintf("%s %s := %s in %s", kw, x.pat, x.rhs, flat(x.body))
+		return fmt.Sprintf("%s %s := %s in %s", kw, letPat(x), x.rhs, flat(x.body))
 	case cIf:
 		return fmt.Sprintf("(if %s then %s else %s)", x.cond, flat(x.thn), flat(x.els))
 	case cMatchOpt:
@@ -128,6 +136,7 @@ type param struct {
 	coq     string
 	t       *typ
 	isSlice bool
+	isBuf   bool // a []byte parameter the function writes: its content goes in, the new content comes out
 }
 
 type fsig struct {
@@ -140,6 +149,7 @@ type fsig struct {
 	coqResT      string
 	untranslated string
 	text         string // the Definition
+	file         int    // 1, 2, 3: which output file
 }
 
 type ftrans struct {
@@ -166,7 +176,7 @@ func (f *ftrans) needMonadic(at ast.Node, what string) {
 func (f *ftrans) bind(rhs string) string {
 	f.ntmp++
 	n := fmt.Sprintf("t%d", f.ntmp)
-	f.binds = append(f.binds, bind{n, rhs})
+	f.binds = append(f.binds, bind{name: n, rhs: rhs})
 	return n
 }
 
@@ -174,7 +184,7 @@ func (f *ftrans) takeBinds() []bind { b := f.binds; f.binds = nil; return b }
 
 func wrapBinds(bs []bind, c code) code {
 	for i := len(bs) - 1; i >= 0; i-- {
-		c = cLet{pat: bs[i].name, rhs: bs[i].rhs, monadic: true, body: c}
+		c = cLet{pat: bs[i].name, rhs: bs[i].rhs, monadic: !bs[i].pure, body: c}
 	}
 	return c
 }
@@ -240,6 +250,9 @@ func (f *ftrans) stmts(list []ast.Stmt, k func() code) code {
 		return f.declStmt(x, next)
 	case *ast.AssignStmt:
 		// v, err := F(args); if err != nil { return nil, err }
+		if c := f.fprintfRune(x); c != nil {
+			return c(next)
+		}
 		if len(x.Lhs) == 2 && len(x.Rhs) == 1 {
 			return f.callWithErr(x, rest, k)
 		}
@@ -370,7 +383,7 @@ func (f *ftrans) assignTo(lhs ast.Expr, rhs ast.Expr, define bool, at ast.Stmt, 
 			return wrapBinds(bs, next())
 		}
 		name := f.fresh(l.Name)
-		nv := &val{t: v.t, term: name, isSlice: v.isSlice}
+		nv := &val{t: v.t, term: name, isSlice: v.isSlice, buf: v.buf}
 		if v.t.k == kBytes && v.cv != nil {
 			nv.cv = v.cv // known length
 		}
@@ -380,6 +393,11 @@ func (f *ftrans) assignTo(lhs ast.Expr, rhs ast.Expr, define bool, at ast.Stmt, 
 			f.env.set(l.Name, nv)
 		}
 		return wrapBinds(bs, cLet{pat: name, rhs: v.term, body: next()})
+	case *ast.IndexExpr:
+		if define {
+			f.p.bad(at, "assignment target")
+		}
+		return f.indexAssign(l, rhs, at, next)
 	case *ast.SelectorExpr:
 		// tmpErr.Packet.UnitID = e : functional update of a symbolic struct
 		var path []string
@@ -450,32 +468,37 @@ func (f *ftrans) updateField(s *val, path []string, v *val, at ast.Node) *val {
 
 func (f *ftrans) exprStmt(x *ast.ExprStmt, next func() code) code {
 	call, ok := x.X.(*ast.CallExpr)
-	if !ok || qualName(call.Fun) != "copy" || len(call.Args) != 2 {
+	if !ok {
 		f.p.bad(x, "expression statement")
 	}
-	if f.mode == "accepts" {
-		return next() // copy into the new packet: does not influence acceptance
+	switch q := qualName(call.Fun); {
+	case q == "copy" && len(call.Args) == 2:
+		if f.mode == "accepts" {
+			return next() // copy into the new packet: does not influence acceptance
+		}
+		return f.copyStmt(call, x, next)
+	case q == "binary.BigEndian.PutUint16" && len(call.Args) == 2:
+		return f.put16Stmt(call, x, next)
 	}
-	dst, ok := call.Args[0].(*ast.Ident)
-	if !ok {
-		f.p.bad(x, "copy into something that is not a local slice variable")
+	// builder.Grow(n): no effect on the content; panics on a negative n
+	if sel, ok := call.Fun.(*ast.SelectorExpr); ok && sel.Sel.Name == "Grow" && len(call.Args) == 1 {
+		if id, ok := sel.X.(*ast.Ident); ok {
+			if bv, ok := f.env.lookup(id.Name); ok && bv.t.k == kBuilder {
+				n := f.conv(f.defaulted(f.expr(call.Args[0]), call.Args[0]), tInt, call.Args[0])
+				f.needMonadic(x, "strings.Builder.Grow")
+				f.bind("zgrow " + atom(n.term))
+				bs := f.takeBinds()
+				return wrapBinds(bs, next())
+			}
+		}
 	}
-	dv, ok := f.env.lookup(dst.Name)
-	if !ok || dv.t.k != kBytes || dv.isSlice {
-		f.p.bad(x, "copy into something that is not a local slice variable")
-	}
-	sv := f.expr(call.Args[1])
-	if sv.t.k != kBytes {
-		f.p.bad(x, "copy from a %s", sv.t)
-	}
-	src := sv.term
-	if sv.isSlice {
-		src = "(vis " + sv.term + ")"
+	// a call whose result is discarded: only functions that write into a slice argument
+	v := f.call(call)
+	if v.t.k != kVoid && v.alias == "" && !(v.t.k == kBytes) {
+		f.p.bad(x, "call statement whose result is dropped")
 	}
 	bs := f.takeBinds()
-	name := f.fresh(dst.Name)
-	f.env.set(dst.Name, &val{t: tBytes, term: name})
-	return wrapBinds(bs, cLet{pat: name, rhs: fmt.Sprintf("gcopy %s %s", atom(dv.term), atom(src)), body: next()})
+	return wrapBinds(bs, next())
 }
 
 // ---------- if ----------
@@ -515,7 +538,7 @@ func isZeroExpr(e ast.Expr) bool {
 	case *ast.Ident:
 		return x.Name == "nil" || x.Name == "false"
 	case *ast.BasicLit:
-		return x.Value == "0"
+		return x.Value == "0" || x.Value == `""`
 	case *ast.CompositeLit:
 		return len(x.Elts) == 0
 	}
@@ -537,14 +560,7 @@ func (f *ftrans) callWithErr(x *ast.AssignStmt, rest []ast.Stmt, k func() code) 
 	if f.sig.shape != "res" {
 		f.p.bad(x, "error propagation in a function of shape %s", f.sig.shape)
 	}
-	id, ok := call.Fun.(*ast.Ident)
-	if !ok {
-		f.p.bad(x, "callee")
-	}
-	fd, ok := f.p.funcs[id.Name]
-	if !ok {
-		f.p.bad(x, "callee %s is not a function of the package", id.Name)
-	}
+	fd, recv := f.calleeOf(call)
 	sig := f.tr.translate(fd, "full")
 	if sig.untranslated != "" {
 		f.p.bad(x, "calls %s, which is untranslated", fd.name)
@@ -552,7 +568,7 @@ func (f *ftrans) callWithErr(x *ast.AssignStmt, rest []ast.Stmt, k func() code) 
 	if sig.shape != "res" {
 		f.p.bad(x, "callee %s has shape %s", fd.name, sig.shape)
 	}
-	args := f.callArgs(call, sig, nil)
+	args := f.callArgs(call, sig, recv)
 	bs := f.takeBinds()
 	name := f.fresh(v.Name)
 	f.env.vars[v.Name] = &val{t: sig.results[0], term: name}
@@ -675,13 +691,21 @@ func (f *ftrans) assignedOuter(list []ast.Stmt) []string {
 				}
 			case *ast.IncDecStmt:
 				note(a.X)
-			case *ast.ExprStmt:
-				if c, ok := a.X.(*ast.CallExpr); ok && qualName(c.Fun) == "copy" && len(c.Args) == 2 {
-					note(c.Args[0])
+			case *ast.CallExpr:
+				if qualName(a.Fun) == "fmt.Fprintf" && len(a.Args) >= 1 {
+					note(a.Args[0])
 				}
 			}
 			return true
 		})
+	}
+	// slices written (element assignment, copy, PutUint16, callees that write), through aliases
+	for _, w := range f.tr.writes(f.fd, list, func(n string) bool { return !local[n] && f.env.has(n) }) {
+		root, _ := f.resolveRoot(w)
+		if root != "" && !seen[root] {
+			seen[root] = true
+			out = append(out, root)
+		}
 	}
 	return out
 }
@@ -711,7 +735,7 @@ func (f *ftrans) rebind(vars []string, at ast.Node) string {
 	for _, v := range vars {
 		old, _ := f.env.lookup(v)
 		n := f.fresh(v)
-		f.env.set(v, &val{t: old.t, term: n})
+		f.env.set(v, &val{t: old.t, term: n, buf: old.buf})
 		ns = append(ns, n)
 	}
 	if len(ns) == 1 {
@@ -808,6 +832,10 @@ func hasControl(list []ast.Stmt) (ret, brk bool) {
 // loopBody translates a loop body without return/break/continue as a pure function of the
 // variables it carries.
 func (f *ftrans) loopBody(body []ast.Stmt, vars []string, extra map[string]*val, at ast.Node) (lam string, init string) {
+	return f.loopBodyM(body, vars, extra, at, false)
+}
+
+func (f *ftrans) loopBodyM(body []ast.Stmt, vars []string, extra map[string]*val, at ast.Node, monadic bool) (lam string, init string) {
 	var initTerms, pnames []string
 	inner := newEnv(f.env.snapshot())
 	for _, v := range vars {
@@ -818,13 +846,13 @@ func (f *ftrans) loopBody(body []ast.Stmt, vars []string, extra map[string]*val,
 		initTerms = append(initTerms, old.term)
 		n := f.fresh(v)
 		pnames = append(pnames, n)
-		inner.set(v, &val{t: old.t, term: n})
+		inner.set(v, &val{t: old.t, term: n, buf: old.buf})
 	}
 	for k, v := range extra {
 		inner.vars[k] = v
 	}
 	savedEnv, savedMon, savedBinds := f.env, f.monadic, f.binds
-	f.env, f.monadic, f.binds = inner, false, nil
+	f.env, f.monadic, f.binds = inner, monadic, nil
 	c := f.stmts(body, func() code { return f.tupleLeaf(vars, at) })
 	if len(f.binds) != 0 {
 		f.p.bad(at, "loop body can panic")
@@ -854,8 +882,27 @@ func (f *ftrans) rangeStmt(x *ast.RangeStmt, next func() code) code {
 		}
 	}
 	// (b) over a list value, body without return: fold_left
-	if ret, brk := hasControl(x.Body.List); ret || brk {
-		f.p.bad(x, "return/break/continue inside a range loop over a slice")
+	body := x.Body.List
+	var brkCond ast.Expr
+	if ret, brk := hasControl(body); ret {
+		f.p.bad(x, "return inside a range loop over a slice")
+	} else if brk {
+		// only `if cond { break }` as the first statement: a fold with a "stopped" flag
+		first, ok := body[0].(*ast.IfStmt)
+		if !ok || first.Init != nil || first.Else != nil || len(first.Body.List) != 1 {
+			f.p.bad(x, "break/continue outside the form `for .. { if cond { break }; ... }`")
+		}
+		bs, ok := first.Body.List[0].(*ast.BranchStmt)
+		if !ok || bs.Tok != token.BREAK || bs.Label != nil {
+			f.p.bad(x, "break/continue outside the form `for .. { if cond { break }; ... }`")
+		}
+		if _, again := hasControl(body[1:]); again {
+			f.p.bad(x, "more than one break/continue in a loop")
+		}
+		brkCond, body = first.Cond, body[1:]
+	}
+	if brkCond != nil {
+		return f.rangeBreak(x, elem.Name, brkCond, body, next)
 	}
 	xs := f.expr(x.X)
 	if xs.t.k != kBytes {
@@ -876,6 +923,51 @@ func (f *ftrans) rangeStmt(x *ast.RangeStmt, next func() code) code {
 	pat := f.rebind(vars, x)
 	rhs := fmt.Sprintf("fold_left (fun %s %s => %s) %s %s", parts[0], en, parts[1], atom(l), init)
 	return wrapBinds(bs, cLet{pat: pat, rhs: rhs, body: next()})
+}
+
+// rangeBreak: for _, b := range l { if cond { break }; body }  =
+//
+//	fold_left (fun '(stop, vars) b => if stop then (stop, vars) else if cond then (true, vars) else (false, body)) l (false, vars)
+func (f *ftrans) rangeBreak(x *ast.RangeStmt, elem string, cond ast.Expr, body []ast.Stmt, next func() code) code {
+	xs := f.expr(x.X)
+	if xs.t.k != kBytes {
+		f.p.bad(x, "range over a %s", xs.t)
+	}
+	bs := f.takeBinds()
+	l := xs.term
+	if xs.isSlice {
+		l = "(vis " + xs.term + ")"
+	}
+	vars := f.assignedOuter(body)
+	if len(vars) == 0 {
+		f.p.bad(x, "loop without effect on local variables")
+	}
+	en := f.fresh(elem)
+	// the condition, over the loop variable only
+	savedEnv, savedMon, savedBinds := f.env, f.monadic, f.binds
+	f.env = newEnv(f.env.snapshot())
+	f.env.vars[elem] = &val{t: tU8, term: en}
+	f.monadic, f.binds = false, nil
+	for _, v := range vars {
+		ast.Inspect(cond, func(n ast.Node) bool {
+			if id, ok := n.(*ast.Ident); ok && id.Name == v {
+				f.p.bad(x, "break condition that reads a variable the loop changes")
+			}
+			return true
+		})
+	}
+	c := f.expr(cond)
+	f.conv(c, tBool, cond)
+	f.env, f.monadic, f.binds = savedEnv, savedMon, savedBinds
+	lam, init := f.loopBody(body, vars, map[string]*val{elem: {t: tU8, term: en}}, x)
+	parts := strings.SplitN(lam, "|", 2)
+	st := parts[0]
+	stTuple := strings.TrimPrefix(st, "'")
+	pat := f.rebind(vars, x)
+	patTuple := strings.TrimPrefix(pat, "'")
+	rhs := fmt.Sprintf("fold_left (fun '(stop, %s) %s => if (stop : bool) then (stop, %s) else if %s then (true, %s) else (false, %s)) %s (false, %s)",
+		stTuple, en, stTuple, c.term, stTuple, parts[1], atom(l), init)
+	return wrapBinds(bs, cLet{pat: "'(_, " + patTuple + ")", rhs: rhs, body: next()})
 }
 
 func (f *ftrans) unrollRange(x *ast.RangeStmt, name string, vs *ast.ValueSpec, elem string, next func() code) code {
@@ -936,8 +1028,8 @@ func (f *ftrans) forStmt(x *ast.ForStmt, next func() code) code {
 	ci, ok := cond.X.(*ast.Ident)
 	hi := f.peekConst(cond.Y)
 	post, ok2 := x.Post.(*ast.IncDecStmt)
-	if !ok || !ok2 || ci.Name != iv.Name || lo == nil || hi == nil || post.Tok != token.INC {
-		f.p.bad(x, "for loop outside the counted form (constant bounds, i++)")
+	if !ok || !ok2 || ci.Name != iv.Name || post.Tok != token.INC {
+		f.p.bad(x, "for loop outside the counted form (i := a; i < b; i++)")
 	}
 	if pi, ok := post.X.(*ast.Ident); !ok || pi.Name != iv.Name {
 		f.p.bad(x, "for loop outside the counted form")
@@ -951,11 +1043,11 @@ func (f *ftrans) forStmt(x *ast.ForStmt, next func() code) code {
 			return true
 		})
 	}
-	if used {
-		f.p.bad(x, "counted loop whose body uses the counter")
-	}
 	if ret, brk := hasControl(x.Body.List); ret || brk {
 		f.p.bad(x, "return/break/continue inside a counted loop")
+	}
+	if used || lo == nil || hi == nil {
+		return f.zforStmt(x, iv.Name, init.Rhs[0], cond.Y, next)
 	}
 	n, ok := constant.Int64Val(constant.BinaryOp(hi, token.SUB, lo))
 	if !ok || n < 0 || n > 64 {
@@ -972,6 +1064,107 @@ func (f *ftrans) forStmt(x *ast.ForStmt, next func() code) code {
 	return cLet{pat: pat, rhs: rhs, body: next()}
 }
 
+// zforStmt: for i := lo; i < hi; i++ { body } where the body may use i, read and write slices, and
+// hi does not change in the body:  zfor (fun st i => body) lo hi st.
+func (f *ftrans) zforStmt(x *ast.ForStmt, iv string, loE, hiE ast.Expr, next func() code) code {
+	f.needMonadic(x, "a general counted loop")
+	// the counter must not be assigned, the bound must be invariant
+	assigned := map[string]bool{}
+	for _, s := range x.Body.List {
+		ast.Inspect(s, func(n ast.Node) bool {
+			switch a := n.(type) {
+			case *ast.AssignStmt:
+				for _, l := range a.Lhs {
+					if id, ok := l.(*ast.Ident); ok {
+						assigned[id.Name] = true
+					}
+				}
+			case *ast.IncDecStmt:
+				if id, ok := a.X.(*ast.Ident); ok {
+					assigned[id.Name] = true
+				}
+			}
+			return true
+		})
+	}
+	if assigned[iv] {
+		f.p.bad(x, "loop counter assigned in the body")
+	}
+	invariant := true
+	ast.Inspect(hiE, func(n ast.Node) bool {
+		switch a := n.(type) {
+		case *ast.Ident:
+			if assigned[a.Name] {
+				invariant = false
+			}
+		case *ast.CallExpr:
+			if qualName(a.Fun) != "len" {
+				invariant = false
+			}
+		case *ast.IndexExpr, *ast.SliceExpr, *ast.SelectorExpr:
+			invariant = false
+		}
+		return true
+	})
+	if !invariant {
+		f.p.bad(x, "loop bound that may change in the body")
+	}
+	lo := f.conv(f.defaulted(f.expr(loE), loE), tInt, loE)
+	hi := f.conv(f.defaulted(f.expr(hiE), hiE), tInt, hiE)
+	bs := f.takeBinds()
+	vars := f.assignedOuter(x.Body.List)
+	if len(vars) == 0 {
+		f.p.bad(x, "loop without effect on local variables")
+	}
+	in := f.fresh(iv)
+	lam, initT := f.loopBodyM(x.Body.List, vars, map[string]*val{iv: {t: tInt, term: in}}, x, true)
+	parts := strings.SplitN(lam, "|", 2)
+	pat := f.rebind(vars, x)
+	rhs := fmt.Sprintf("zfor (fun %s %s => %s) %s %s %s", parts[0], in, parts[1], atom(lo.term), atom(hi.term), initT)
+	return wrapBinds(bs, cLet{pat: pat, rhs: rhs, monadic: true, body: next()})
+}
+
+// fprintfRune: _, _ = fmt.Fprintf(builder, "%c", rune(b)) with b a byte: appends the UTF-8 encoding of
+// the code point b to the builder (GenPrelude3.utf8_rune).
+func (f *ftrans) fprintfRune(x *ast.AssignStmt) func(next func() code) code {
+	if len(x.Rhs) != 1 {
+		return nil
+	}
+	call, ok := x.Rhs[0].(*ast.CallExpr)
+	if !ok || qualName(call.Fun) != "fmt.Fprintf" {
+		return nil
+	}
+	for _, l := range x.Lhs {
+		if id, ok := l.(*ast.Ident); !ok || id.Name != "_" {
+			f.p.bad(x, "fmt.Fprintf whose results are used")
+		}
+	}
+	if len(call.Args) != 3 {
+		f.p.bad(x, `fmt.Fprintf outside the idiom Fprintf(builder, "%%c", rune(b))`)
+	}
+	dst, ok1 := call.Args[0].(*ast.Ident)
+	format, ok2 := call.Args[1].(*ast.BasicLit)
+	conv, ok3 := call.Args[2].(*ast.CallExpr)
+	if !ok1 || !ok2 || !ok3 || format.Value != `"%c"` || qualName(conv.Fun) != "rune" || len(conv.Args) != 1 {
+		f.p.bad(x, `fmt.Fprintf outside the idiom Fprintf(builder, "%%c", rune(b))`)
+	}
+	bv, ok := f.env.lookup(dst.Name)
+	if !ok || bv.t.k != kBuilder {
+		f.p.bad(x, "fmt.Fprintf into something that is not a local strings.Builder")
+	}
+	return func(next func() code) code {
+		b := f.expr(conv.Args[0])
+		if b.t.k != kU8 {
+			f.p.bad(x, "rune(x) with x of type %s (only a byte is in the fragment)", b.t)
+		}
+		bs := f.takeBinds()
+		cur, _ := f.env.lookup(dst.Name)
+		name := f.fresh(dst.Name)
+		f.env.set(dst.Name, &val{t: tBuilder, term: name})
+		return wrapBinds(bs, cLet{pat: name, rhs: fmt.Sprintf("%s ++ utf8_rune %s", atom(cur.term), atom(b.term)), body: next()})
+	}
+}
+
 // ---------- return ----------
 func (f *ftrans) ret(x *ast.ReturnStmt) code {
 	sh := f.sig.shape
@@ -979,27 +1172,29 @@ func (f *ftrans) ret(x *ast.ReturnStmt) code {
 	// tail call: return F(args)
 	if len(x.Results) == 1 && len(f.sig.results) >= 1 && (sh == "res" || sh == "opt" || sh == "pair") {
 		if call, ok := x.Results[0].(*ast.CallExpr); ok {
-			if id, ok := call.Fun.(*ast.Ident); ok {
-				if fd, ok := f.p.funcs[id.Name]; ok && simpleCtorBody(fd) == nil {
-					sig := f.tr.translate(fd, "full")
-					if sig.untranslated != "" {
-						f.p.bad(x, "calls %s, which is untranslated", fd.name)
-					}
-					if sig.shape != sh {
-						f.p.bad(x, "tail call of %s (shape %s) from a function of shape %s", fd.name, sig.shape, sh)
-					}
-					if sh == "res" {
-						f.noteResType(sig.coqResT, x)
-					}
-					args := f.callArgs(call, sig, nil)
-					return leaf(sig.coqName + " " + strings.Join(args, " "))
+			if fd, recv := f.calleeOpt(call); fd != nil && simpleCtorBody(fd) == nil {
+				sig := f.tr.translate(fd, "full")
+				if sig.untranslated != "" {
+					f.p.bad(x, "calls %s, which is untranslated", fd.name)
 				}
+				if sig.shape != sh {
+					f.p.bad(x, "tail call of %s (shape %s) from a function of shape %s", fd.name, sig.shape, sh)
+				}
+				if sh == "res" {
+					f.noteResType(sig.coqResT, x)
+				}
+				args := f.callArgs(call, sig, recv)
+				return leaf(sig.coqName + " " + strings.Join(args, " "))
 			}
 		}
 	}
 	if len(x.Results) != len(f.sig.results) {
 		f.p.bad(x, "return with %d values in a function with %d results", len(x.Results), len(f.sig.results))
 	}
+	if sh == "mut" {
+		return f.retMut(x)
+	}
+	// return F(make(..)) / return e.Packet.Bytes(): the result of a call that can panic
 	switch sh {
 	case "accepts":
 		if id, ok := x.Results[len(x.Results)-1].(*ast.Ident); ok && id.Name == "nil" {
@@ -1011,6 +1206,14 @@ func (f *ftrans) ret(x *ast.ReturnStmt) code {
 		return cLeaf{"false"}
 	case "pure", "resv":
 		v := f.expr(x.Results[0])
+		if v.fields != nil {
+			term, ty := f.materialize(v, x)
+			f.noteResType(ty, x)
+			if sh == "pure" {
+				return cLeaf{term}
+			}
+			return leaf("Ok " + atom(term))
+		}
 		if v.t.k == kUntypedInt {
 			v = f.conv(v, f.sig.results[0], x)
 		} else if !sameType(v.t, f.sig.results[0]) {
@@ -1049,6 +1252,12 @@ func (f *ftrans) ret(x *ast.ReturnStmt) code {
 				f.p.bad(x, "return of a %s from a function returning %s", v.t, rt)
 			}
 			term = v.term
+			if rt.k == kString && term == "" {
+				if !isZeroExpr(x.Results[0]) {
+					f.p.bad(x, "a string whose content is not tracked is returned")
+				}
+				term = "[]"
+			}
 		}
 		if sh == "res" {
 			return leaf("Ok " + atom(term))
@@ -1062,9 +1271,76 @@ func (f *ftrans) ret(x *ast.ReturnStmt) code {
 	return nil
 }
 
+// retMut: a function that writes into its slice parameter returns nothing or that parameter.
+func (f *ftrans) retMut(at ast.Node) code {
+	var bp *param
+	for i := range f.sig.params {
+		if f.sig.params[i].isBuf {
+			bp = &f.sig.params[i]
+		}
+	}
+	if r, ok := at.(*ast.ReturnStmt); ok && len(r.Results) == 1 {
+		id, ok := r.Results[0].(*ast.Ident)
+		if !ok {
+			f.p.bad(at, "a function that writes into its slice parameter must return that parameter")
+		}
+		root, _ := f.resolveRoot(id.Name)
+		if root != bp.name {
+			f.p.bad(at, "a function that writes into its slice parameter must return that parameter")
+		}
+	}
+	cur, _ := f.env.lookup(bp.name)
+	bs := f.takeBinds()
+	return wrapBinds(bs, cLeaf{"Ok " + atom(cur.term)})
+}
+
+// calleeOpt resolves F(..) to a function of the package and x.m(..) to a method of the symbolic
+// struct x (with the part of x that is the method's receiver); nil if it is neither.
+func (f *ftrans) calleeOpt(call *ast.CallExpr) (*funcDecl, *val) {
+	switch fn := call.Fun.(type) {
+	case *ast.Ident:
+		if f.env.has(fn.Name) {
+			return nil, nil
+		}
+		if fd, ok := f.p.funcs[fn.Name]; ok {
+			return fd, nil
+		}
+	case *ast.SelectorExpr:
+		if id, isId := fn.X.(*ast.Ident); isId && !f.env.has(id.Name) {
+			return nil, nil // a package-qualified name
+		}
+		recv := f.expr(fn.X)
+		if recv.fields == nil {
+			return nil, nil
+		}
+		rn := recv.t.name
+		if recv.t.k == kPtr {
+			rn = recv.t.elem.name
+		}
+		fd := f.p.findMethod(rn, fn.Sel.Name)
+		if fd == nil {
+			return nil, nil
+		}
+		target := f.embeddedOf(recv, rn, fd.recv)
+		if target == nil {
+			return nil, nil
+		}
+		return fd, target
+	}
+	return nil, nil
+}
+
+func (f *ftrans) calleeOf(call *ast.CallExpr) (*funcDecl, *val) {
+	fd, recv := f.calleeOpt(call)
+	if fd == nil {
+		f.p.bad(call, "callee %s is not a function or method of the package", describe(call.Fun))
+	}
+	return fd, recv
+}
+
 // noteResType records / checks the Gallina type of the first result (all returns must agree).
 func (f *ftrans) noteResType(ty string, at ast.Node) {
-	if f.sig.coqResT == "" {
+	if f.sig.coqResT == "" || f.sig.coqResT == "?" {
 		f.sig.coqResT = ty
 	} else if f.sig.coqResT != ty {
 		f.p.bad(at, "returns of different model types: %s and %s", f.sig.coqResT, ty)
